@@ -3,10 +3,12 @@ CONSTANTS
   GenAbis = {"x64elf", "x64pe", "ia32pe", "arm64", "mips32"}
   Wide = FALSE
   ScratchVals = {0, 1, 3}
+  Hist16 = TRUE
   Emit = TRUE
   Strict = FALSE
 INVARIANT Inv_TypeOK
 INVARIANT Inv_Refusal
+INVARIANT Inv_RefusesUnservable
 INVARIANT Inv_NoWriteAtOrAboveOriginalSp
 INVARIANT Inv_NoRedZoneWriteIfLeaf
 INVARIANT Inv_ReadsOnlyOwnSlots
